@@ -3,6 +3,7 @@ import logging
 
 import netCDF4
 import numpy as np
+from netCDF4.utils import _safecast
 from scipy.sparse import issparse
 
 from .. import core
@@ -1415,6 +1416,7 @@ class Data(Container, NetCDFHDF5, Files, core.Data):
         valid_min=None,
         valid_max=None,
         valid_range=None,
+        safe_cast=False,
         inplace=False,
     ):
         """Apply masking.
@@ -1477,6 +1479,24 @@ class Data(Container, NetCDFHDF5, Files, core.Data):
                   ``valid_range=[-999, 10000]`` is equivalent to setting
                   ``valid_min=-999, valid_max=10000``
 
+            safe_cast: `bool`, optional
+                If True then the values are treated in the same way
+                as the values of the netCDF attributes of the same
+                names are when a variable is read from a dataset: a
+                fill value, *valid_min*, *valid_max* or *valid_range*
+                that can not be cast to the data type of the data
+                without changing its value is ignored; the others
+                are cast to that data type before being compared
+                with the data; an element of *fill_values* may
+                itself be a vector of values, which is ignored as a
+                whole if any one of its elements can not be safely
+                cast; and *valid_range* may be set together with
+                *valid_min* or *valid_max*, in which case a usable
+                *valid_range* of two elements is used in preference
+                to them.
+
+                .. versionadded:: (cfdm) NEXTVERSION
+
             inplace: `bool`, optional
                 If True then do the operation in-place and return `None`.
 
@@ -1534,7 +1554,7 @@ class Data(Container, NetCDFHDF5, Files, core.Data):
          [8 -- -- --]]
 
         """
-        if valid_range is not None:
+        if valid_range is not None and not safe_cast:
             if valid_min is not None or valid_max is not None:
                 raise ValueError(
                     "Can't set 'valid_range' parameter with either the "
@@ -1585,9 +1605,52 @@ class Data(Container, NetCDFHDF5, Files, core.Data):
                     )
 
         mask = None
+        array = None
+
+        if safe_cast:
+            # Select and cast the values as is done for the netCDF
+            # attributes of a variable that is read from a dataset
+            array = self.array
+            dtype = array.dtype
+
+            def safe(value):
+                """The value cast to the data type, or None if unsafe."""
+                if value is None:
+                    return None
+
+                value = np.array(value)
+                try:
+                    cast = np.array(value, dtype)
+                except (TypeError, ValueError):
+                    return None
+
+                if not _safecast(value, cast):
+                    return None
+
+                return cast
+
+            fill_values = [safe(fv) for fv in fill_values]
+            fill_values = [fv for fv in fill_values if fv is not None]
+
+            valid_range = safe(valid_range)
+            if valid_range is not None and valid_range.size == 2:
+                valid_min, valid_max = np.ravel(valid_range)
+            else:
+                valid_min = safe(valid_min)
+                if valid_min is not None:
+                    valid_min = np.ravel(valid_min)[0]
+
+                valid_max = safe(valid_max)
+                if valid_max is not None:
+                    valid_max = np.ravel(valid_max)[0]
+
+        # Note: an element of 'fill_values' may be a vector
+        fill_values = [x for fv in fill_values for x in np.ravel(fv)]
 
         if fill_values:
-            array = self.array
+            if array is None:
+                array = self.array
+
             for fill_value in fill_values:
                 try:
                     fill_value_is_nan = bool(np.isnan(fill_value))
@@ -1608,15 +1671,19 @@ class Data(Container, NetCDFHDF5, Files, core.Data):
                     mask |= fv_mask
 
         if valid_min is not None:
-            if mask is None:
+            if array is None:
                 array = self.array
+
+            if mask is None:
                 mask = array < valid_min
             else:
                 mask |= array < valid_min
 
         if valid_max is not None:
-            if mask is None:
+            if array is None:
                 array = self.array
+
+            if mask is None:
                 mask = array > valid_max
             else:
                 mask |= array > valid_max
